@@ -57,7 +57,7 @@ class SREC(BinFormat):
                 self.name = l.data
             elif l.SRECtype in (Start16, Start24, Start32):
                 if l.address:
-                    self.entrypoint = l.address
+                    self._entrypoint = self.entrypoint = l.address
                 count = 0
             elif l.SRECtype in (Count16, Count24):
                 if count != l.address:
